@@ -1843,6 +1843,10 @@ func (s *scanner) addEntryPoints(entryPoints []EntryPoint) []graph.EntryPoint {
 	s.timer.Begin("Add entry points")
 	defer s.timer.End("Add entry points")
 
+	// The caller's entry points are reused by later incremental builds, so the
+	// path adjustments made below must not be written back into the caller's slice
+	entryPoints = append([]EntryPoint{}, entryPoints...)
+
 	// Reserve a slot for each entry point
 	entryMetas := make([]graph.EntryPoint, 0, len(entryPoints)+1)
 
